@@ -152,7 +152,7 @@ def run(check):
     check.rule = ("generated workflow programs (all shapes of vlib.gen incl. fan-in up to 45 producers) x outcome vectors "
                   "(success/error/alt/crash/drop/deploy failure/never-ending) x optional random multi-site delay plans; plus (a) outputs / step inputs that cannot be "
                   "evaluated at run time next to never-ending steps and (b) 'late waiter' programs whose remaining outputs hang on a stage of a step that can never "
-                  "deploy/start and whose wait announcement is forced to be the last event of the run; (c) steps stopped while running that are slow to hand in their result, closure timeouts 0 / 30 ms; (d) never-ending programs aborted by the caller at plugin-boundary events (must return, with a declared output or an error); "
+                  "deploy/start and whose wait announcement is forced to be the last event of the run; (e) up to 45 steps waiting for a failing step; (c) steps stopped while running that are slow to hand in their result, closure timeouts 0 / 30 ms; (d) never-ending programs aborted by the caller at plugin-boundary events (must return, with a declared output or an error); "
                   "executed through FromYAML->Prepare->Execute in child processes; a case is non-trivial if at least one step "
                   "fails or never ends or >=2 producers feed one consumer; distinct = distinct (shape, outcome vector, result)")
     check.assumptions = ["hang oracle: Go runtime deadlock report in a timer-free child (DESIGN 4.3)",
@@ -185,6 +185,20 @@ def run(check):
         case, sem = runfam.build_case("c01-%05d" % i, g, **opts)
         if not runfam.terminating(sem):
             continue
+        items.append((case, sem, g))
+    # many steps (up to 45, the error buffer holds 20) waiting for a step that fails: the run ends with an error while all of
+    # them still wait for input and are closed one after the other
+    for j, k in enumerate([5, 19, 21, 22, 30, 45] * check.pick(1, 4)):
+        rng = random.Random(derive_seed(check.seed, "c01-fanout", j))
+        bad = ["deployfail", "crash", "error"][j % 3]
+        how = rng.choice(["wait_for", "input"])
+        root = gen.plugin_step("root", Expr(In("tag")))
+        waiters = [gen.plugin_step("w%d" % q, Expr(In("tag")), wait_for=Expr(Ref("root", "outputs", "success"))) if how == "wait_for" else gen.plugin_step("w%d" % q, gen.tagref("root")) for q in range(k)]
+        steps = [root] + waiters
+        rng.shuffle(steps)
+        outs = {"success": {"r": gen.tagref("root")}} if j % 2 else {"success": {"w": gen.tagref("w0")}}
+        g = {"program": Program(steps, outs, gen.BASE_INPUT), "scripts": gen.make_scripts(steps, {"root": bad}), "input": gen.base_input(rng), "shape": "fan_out_waiters_%d/%s/%s" % (k, bad, how), "outcome": {"root": bad}}
+        case, sem = runfam.build_case("c01-fo%04d" % j, g)
         items.append((case, sem, g))
     orders = set()
     delayed = [0]
